@@ -67,6 +67,7 @@ type recorder struct {
 	lastEv  int64 // unix nano of the last hook event
 	slowUs  int64 // delay of the connection writer after hd.written (slow endpoint emulation), 0 = off
 	curConn int   // connection of the last relay.connUpdate, 0 after relay.dead
+	dest    *destination.Destination
 	ksOld   int
 	ksNew   int
 }
@@ -188,6 +189,11 @@ func hook(name string, args ...interface{}) {
 	case "relay.unspool":
 		e["sn"] = args[3].(bool)
 		e["sl"] = args[4].(bool)
+	case "relay.loop":
+		// the relay's slow flags (exported fields, written only by the relay goroutine, which is the one running this hook)
+		if role == "relay" && r.dest != nil {
+			e["sn"], e["sl"] = r.dest.SlowNow, r.dest.SlowLastLoop
+		}
 	case "relay.connUpdate":
 		r.curConn = e["conn"].(int)
 	case "relay.dead":
@@ -214,7 +220,15 @@ func hook(name string, args ...interface{}) {
 	r.lg.Emit(e)
 	r.mu.Unlock()
 	if delay > 0 {
+		// the writer sits here as it would in a slow socket write; the mark tells the check that this goroutine did
+		// nothing before this moment (it narrows the interval of its next event, it is not an event of the model)
 		time.Sleep(delay)
+		r.mu.Lock()
+		if !r.closed {
+			r.seq++
+			r.lg.Emit(ev{"seq": r.seq, "role": role, "ev": "mark", "scn": r.scn, "conn": e["conn"]})
+		}
+		r.mu.Unlock()
 	}
 }
 
@@ -535,7 +549,7 @@ func runScenario(s scenario, spoolRoot string, lg *hx.Log, prog *hx.Log) {
 	}
 	key := d.Key
 	r := &recorder{lg: lg, scn: s.ID, prefix: prefix, conns: map[*destination.Conn]int{}, counts: map[string]int{},
-		lastEv: time.Now().UnixNano()}
+		lastEv: time.Now().UnixNano(), dest: d}
 	recorders.Store(key, r)
 	base := drops(key)
 	lg.Emit(ev{"seq": 0, "role": "driver", "ev": "scn", "scn": s.ID, "name": s.Name, "spool": s.Spool, "connbuf": s.ConnBuf,
